@@ -1,49 +1,46 @@
 (* C19 -- connection racing returns one socket and leaks none: theorem statements (proofs in Proofs/C19_*.v).
-   Model: Conc/ConnRace.v.
-
-   NOT YET PROVED (kept here so that nobody mistakes the partial results below for them):
-     open_sockets_invariant : forall c tr s, NoDup (map a_id (c_addrs c)) -> c_addrs c <> [] ->
-        exec c (init c) tr = Some s ->
-        NoDup (r_open s) /\ forall id, In id (r_open s) <-> connecting c (r_att s) id \/ (r_winner s = Some id /\ kept s)
-     result_exact : ... exec c (init c) tr = Some s ->
-        (forall id, r_result s = Some (ResSock id) -> r_open s = [id]) /\
-        (forall o, r_result s = Some o -> (forall id, o <> ResSock id) -> r_open s = []) /\
-        (forall n, r_result s = Some (ResErrs n) -> 1 <= n)
-     interleave_perm : forall l, Permutation (interleave l) l ;  first attempt is IPv6 when one exists
-   The invariant record [Inv], its establishment [init_inv] and the update lemmas are in Proofs/C19_proofs.v; the
-   preservation lemma over the 11 labels is missing.  The statements above are checked on every run only by
-   execution (model = implementation on every case, and the driver's oracle), not by proof. *)
+   Model: Conc/ConnRace.v.  [exec c (init c) tr = Some s] : s is reached from the initial state of the race over
+   the (reordered) address list of c by the label sequence tr -- any interleaving of host steps, child steps,
+   connect outcomes, task-group cancellation and caller cancellation; every theorem quantifies over all tr. *)
 From Coq Require Import ZArith List Bool Arith Lia Permutation.
 Import ListNotations.
 From EN Require Import Gen.ParamsC19 Conc.ConnRace Proofs.C19_reorder Proofs.C19_proofs.
 
-(* _prioritize_ipv6_over_ipv4 returns the same multiset of addresses *)
-Theorem prioritize_perm : forall l : list acfg, Permutation (prioritize l) l.
-Proof. exact prioritize_perm_l. Qed.
-Print Assumptions prioritize_perm.
+(* at every reachable state the open sockets are exactly the sockets of the attempts suspended in connect, plus the
+   winner as long as the race has not ended with an exception; no socket is counted twice *)
+Theorem open_sockets_invariant : forall c tr s,
+  NoDup (map a_id (c_addrs c)) -> c_addrs c <> [] -> exec c (init c) tr = Some s ->
+  NoDup (r_open s) /\
+  forall id, In id (r_open s) <->
+    (exists i a b, nth_error (r_att s) i = Some (TConn b) /\ nth_error (c_addrs c) i = Some a /\ a_id a = id) \/
+    (r_winner s = Some id /\ match r_result s with None | Some (ResSock _) => True | Some _ => False end).
+Proof.
+  intros c tr s Hd Hne H.
+  pose proof (exec_inv c Hd Hne tr (init c) s (init_inv c) H) as I.
+  split; [apply (i_nodup c s I) | apply (i_open c s I)].
+Qed.
+Print Assumptions open_sockets_invariant.
 
-(* _create_connection_impl, from any position of any address list: when it suspends in a connect exactly that
-   address's socket has been added to the open set; when it returns a socket exactly that one; on every other exit
-   (all addresses failed, non-OSError exception) nothing: every socket created on the way was closed again *)
-Theorem create_connection_opens_exactly_partial : forall locals l errs open,
-  match cc_advance locals l errs open with
-  | (CcWait cur _ _, open') => open' = a_id cur :: open
-  | (CcDone (OutSock id), open') => open' = id :: open
-  | (CcDone _, open') => open' = open
-  end.
-Proof. exact cc_advance_open. Qed.
-Print Assumptions create_connection_opens_exactly_partial.
+(* normal return: exactly one socket is open and it is the returned one (the winner);
+   any exceptional exit (all attempts failed, caller cancelled anywhere, non-OSError exception): no socket is open;
+   a failure of all attempts is reported with at least one error *)
+Theorem result_exact : forall c tr s,
+  NoDup (map a_id (c_addrs c)) -> c_addrs c <> [] -> exec c (init c) tr = Some s ->
+  (forall id, r_result s = Some (ResSock id) -> r_open s = [id] /\ r_winner s = Some id) /\
+  (forall o, r_result s = Some o -> (forall id, o <> ResSock id) -> r_open s = []) /\
+  (forall n, r_result s = Some (ResErrs n) -> 1 <= n).
+Proof.
+  intros c tr s Hd Hne H.
+  exact (result_exact_inv c s (exec_inv c Hd Hne tr (init c) s (init_inv c) H)).
+Qed.
+Print Assumptions result_exact.
 
-(* resuming the pending connect with any outcome (success, OSError, other exception, cancellation): its socket stays
-   open only on success; on OSError the loop goes on with the remaining addresses *)
-Theorem create_connection_resume_exact_partial : forall locals cur rest errs r open0, ~ In (a_id cur) open0 ->
-  match cc_resume locals cur rest errs r (a_id cur :: open0) with
-  | (CcWait cur' _ _, open') => open' = a_id cur' :: open0
-  | (CcDone (OutSock id), open') => open' = id :: open0
-  | (CcDone _, open') => open' = open0
-  end.
-Proof. exact cc_resume_open. Qed.
-Print Assumptions create_connection_resume_exact_partial.
+(* once the race has a result nothing can happen any more: the result and the open set are final *)
+Theorem result_final : forall c tr s l,
+  NoDup (map a_id (c_addrs c)) -> c_addrs c <> [] -> exec c (init c) tr = Some s -> r_result s <> None ->
+  step c s l = None.
+Proof. intros c tr s l Hd Hne. exact (result_is_final c Hd Hne tr s l). Qed.
+Print Assumptions result_final.
 
 (* a connect attempt that succeeds while a winner exists closes its own socket and leaves the winner alone,
    in every state (not only reachable ones) *)
@@ -53,8 +50,30 @@ Theorem double_success_closes_loser : forall (c : rcfg) s i s' w a,
 Proof. exact second_success_closes. Qed.
 Print Assumptions double_success_closes_loser.
 
-(* one address: _create_connection_impl([addr]) has exactly four shapes of outcome, and a failure always carries
-   at least one error (so the final exception group is never empty) *)
+(* _create_connection_impl, from any position of any address list: when it suspends in a connect exactly that
+   address's socket has been added to the open set; when it returns a socket exactly that one; on every other exit
+   (all addresses failed, non-OSError exception) nothing: every socket created on the way was closed again *)
+Theorem create_connection_opens_exactly : forall locals l errs open,
+  match cc_advance locals l errs open with
+  | (CcWait cur _ _, open') => open' = a_id cur :: open
+  | (CcDone (OutSock id), open') => open' = id :: open
+  | (CcDone _, open') => open' = open
+  end.
+Proof. exact cc_advance_open. Qed.
+Print Assumptions create_connection_opens_exactly.
+
+(* resuming the pending connect with any outcome (success, OSError, other exception, cancellation): its socket stays
+   open only on success; on OSError the loop goes on with the remaining addresses *)
+Theorem create_connection_resume_exact : forall locals cur rest errs r open0, ~ In (a_id cur) open0 ->
+  match cc_resume locals cur rest errs r (a_id cur :: open0) with
+  | (CcWait cur' _ _, open') => open' = a_id cur' :: open0
+  | (CcDone (OutSock id), open') => open' = id :: open0
+  | (CcDone _, open') => open' = open0
+  end.
+Proof. exact cc_resume_open. Qed.
+Print Assumptions create_connection_resume_exact.
+
+(* one address: four shapes of outcome, and a failure always carries at least one error *)
 Theorem single_address_outcomes : forall locals a open,
   (exists n, cc_advance locals [a] 0 open = (CcDone (OutErrs n), open) /\ 1 <= n) \/
   cc_advance locals [a] 0 open = (CcWait a [] 0, a_id a :: open) \/
@@ -63,11 +82,24 @@ Theorem single_address_outcomes : forall locals a open,
 Proof. exact cc_single. Qed.
 Print Assumptions single_address_outcomes.
 
-(* the race's initial state satisfies the invariant record (non-vacuity of its hypotheses) *)
-Theorem race_invariant_initially : forall c, c_addrs c <> [] -> Inv c (init c).
-Proof. exact init_inv. Qed.
-Print Assumptions race_invariant_initially.
+(* the two reordering functions and their composition return the same multiset of addresses *)
+Theorem prioritize_perm : forall l : list acfg, Permutation (prioritize l) l.
+Proof. exact prioritize_perm_l. Qed.
+Print Assumptions prioritize_perm.
+Theorem interleave_perm : forall l : list acfg, Permutation (interleave l) l.
+Proof. exact interleave_perm_l. Qed.
+Print Assumptions interleave_perm.
+Theorem reorder_perm : forall l : list acfg, Permutation (reorder l) l.
+Proof. exact reorder_perm_l. Qed.
+Print Assumptions reorder_perm.
 
+(* the first attempt goes to an IPv6 address whenever the list contains one *)
+Theorem first_attempt_ipv6 : forall l : list acfg, (exists a, In a l /\ a_fam a = AF_INET6) ->
+  exists b t, reorder l = b :: t /\ a_fam b = AF_INET6.
+Proof. exact reorder_first_ipv6. Qed.
+Print Assumptions first_attempt_ipv6.
+
+(* non-vacuity: a double success ends with exactly the winner's socket open; an all-failed race reports its errors *)
 Example ex_double_success :
   let c := {| c_addrs := [ {| a_id := 0; a_fam := AF_INET6; a_create := true; a_conn := CkSuspend |};
                            {| a_id := 1; a_fam := AF_INET; a_create := true; a_conn := CkSuspend |} ];
@@ -75,4 +107,19 @@ Example ex_double_success :
   option_map (fun s => (r_open s, r_result s))
     (exec c (init c) [LHostStart; LChildStart 0; LHostNext true; LChildStart 1; LConnOk 1; LConnOk 0; LHostCancel;
                       LHostFinish true]) = Some ([1], Some (ResSock 1)).
+Proof. vm_compute. reflexivity. Qed.
+Example ex_all_failed :
+  let c := {| c_addrs := [ {| a_id := 0; a_fam := AF_INET6; a_create := true; a_conn := CkSuspend |};
+                           {| a_id := 1; a_fam := AF_INET; a_create := false; a_conn := CkSuspend |} ];
+              c_locals := None; c_delay := false |} in
+  option_map (fun s => (r_open s, r_result s))
+    (exec c (init c) [LHostStart; LChildStart 0; LConnFail 0; LHostNext false; LChildStart 1; LHostNext false;
+                      LHostFinish false]) = Some ([], Some (ResErrs 2)).
+Proof. vm_compute. reflexivity. Qed.
+Example ex_cancel_after_win :
+  let c := {| c_addrs := [ {| a_id := 0; a_fam := AF_INET6; a_create := true; a_conn := CkSuspend |} ];
+              c_locals := None; c_delay := true |} in
+  option_map (fun s => (r_open s, r_result s))
+    (exec c (init c) [LHostStart; LChildStart 0; LCancelCaller; LConnOk 0; LHostCancel; LHostFinish false])
+  = Some ([], Some ResCancelled).
 Proof. vm_compute. reflexivity. Qed.
